@@ -149,7 +149,9 @@ theorem psub_zero (p : Nat) : psub p 0 = some p := by
 
 theorem encodeDlc_src (this n : Nat) (h : n < 256) : CanPayloadBase_encodeDlc this n = some (dlcOf n) := by
   unfold CanPayloadBase_encodeDlc dlcOf
-  rw [sle_small n 8 (by omega) (by omega)]
+  rw [sle_small n 8 (by omega) (by omega), sle_small n 12 (by omega) (by omega), sle_small n 16 (by omega) (by omega),
+    sle_small n 20 (by omega) (by omega), sle_small n 24 (by omega) (by omega), sle_small n 32 (by omega) (by omega),
+    sle_small n 48 (by omega) (by omega)]
   simp only [pure, decide_eq_true_eq, beq_iff_eq, ite_some]
 
 /-! ### `Payload::setData<Header>` -/
